@@ -2,9 +2,9 @@
 from facts import AnalysisBroken
 from model import (dstr, strip, fact_holds, mentions_field, mentions_call, mentions_var,
                    const_value, walk)
-from rules import (guarded, calls_to, field_writes, who_may_write, full_range, loops_over,
+from rules import (deep_resolve, guarded, calls_to, field_writes, who_may_write, full_range, loops_over,
                    every_iteration_passes, basename, origins, is_var, is_enum, lastname)
-from props.scan_common import (OUTDIRTY, check_prune_recheck, check_refresh_validations, ts_role, ts_comparisons, check_cc, effect_returns,
+from props.scan_common import (var_base, OUTDIRTY, check_prune_recheck, check_refresh_validations, ts_role, ts_comparisons, check_cc, effect_returns,
                                effect_assigns, true_succ)
 
 
@@ -137,7 +137,19 @@ def run(ctx):
     for name in ('ImplicitDepLoader::LoadDepsFromLog', 'ImplicitDepLoader::LoadDepsFromLogTry'):
         check_cc(ctx, 'C02.CC', prog.fn(name), ('DEPS', 'OUT'), '<', None,
                  'strict: deps record < output', 'CC3:strict')
-    ctx.floor('C02.CC', 6)
+        # ... and the record is the one of the very output whose mtime it is compared with (each output has its own
+        # record with its own mtime: comparing another output's mtime with it never converges)
+        fn = prog.fn(name)
+        gd = [e for e in fn.calls('DepsLog::GetDeps')]
+        recs = {var_base(e['args'][0]) for e in gd if e.get('args')}
+        for bid, a, rl, rr in ts_comparisons(fn):
+            if (rl, rr) == ('DEPS', 'OUT') or (rr, rl) == ('DEPS', 'OUT'):
+                out_side = a['r'] if rl == 'DEPS' else a['l']
+                ob = var_base(deep_resolve(fn, out_side))
+                ctx.check('C02.CC', ob in {var_base(deep_resolve(fn, e['args'][0])) for e in gd if e.get('args')} or ob in recs, fn.name,
+                          'CC3:record-of-another-output', 'src/%s:%s' % (fn.file, fn.term(bid)['line']),
+                          'the deps record compared with `%s` was looked up for that same node (GetDeps(%s))' % (ob, sorted(recs)))
+    ctx.floor('C02.CC', 8)
 
     # ---- TA3: the two instantiations of the output check agree on the restat shortcut ----------
     R('C02.TA3', 'TA', 'the first-pass and the after-deps instantiation of the output check apply '
